@@ -87,8 +87,11 @@ def variable(draw, name):
         v['kind'] = 'int'
         v['val'] = draw(st.integers(0, 1000))
     elif div == 'zero':
-        v['kind'] = 'int'
-        v['val'] = draw(st.integers(0, 50))
+        # zeros whatever the mother holds (also inf, as an 'infinite
+        # reservoir', or a string)
+        v['kind'] = draw(st.sampled_from(['int', 'int', 'inf', 'str']))
+        v['val'] = {'int': draw(st.integers(0, 50)), 'inf': None,
+                    'str': 'abc'}[v['kind']]
     elif div == 'set_value':
         v['kind'] = 'int'
         v['val'] = draw(st.integers(0, 50))
